@@ -32,7 +32,7 @@ ASSUMPTIONS = [
     "the Go reference server cannot be built here (no Go toolchain): it is exercised through a line-by-line Python port; the side under test is the Python bridge",
     "the origin of the `tick` field is not fixed by the statement (the bridge counts from 1): only monotonicity is required",
 ]
-FLOORS = {"completion_reported": 0.2, "idle_poll_call": 0.2, "policy_tape": 0.2, "had_suspension": 1}
+FLOORS = {"completion_reported": 0.2, "idle_poll_call": 0.2, "policy_tape": 0.2, "had_suspension": 1, "siblings_swapped_states_between_calls": 3}
 FORBIDDEN_KEYS = {"baseline_cpu_seconds", "storage_read_gb", "memory_gb", "cpu_scaling", "segments", "values", "scaling_func"}
 REPLAY_KEY = "verif-replay"
 _replay = {"decisions": {}, "registered": False}
@@ -81,8 +81,34 @@ def branchy_rest_case(draw, tier):
     return c
 
 
+@st.composite
+def swap_rest_case(draw, tier):
+    """sibling operators of one pipeline, each alone in a container whose memory limit (a whole number of GB, drawn per
+    operator position) is below what it reads: every sibling is OOM-killed after a different number of ticks and retried at
+    once by the `sized` policy, so that between two consecutive calls one sibling goes failed -> running while another goes
+    running -> failed (same histogram of states, different operators) - unless an idle poll falls in between"""
+    tps = draw(st.sampled_from([10, 10, 5, 20]))
+    params = {"scheduler_algo": "rest", "ticks_per_second": tps, "duration": (draw(st.sampled_from([60, 40, 90])) + 0.5) / tps,
+              "num_pools": draw(st.sampled_from([1, 1, 2])), "cpus_per_pool": 16, "ram_gb_per_pool": 128,
+              "multi_operator_containers": False, "allow_memory_overcommit": draw(st.booleans()), "random_seed": 0,
+              "interactive_prob": 0.3, "query_prob": 0.1, "batch_prob": 0.6,
+              "rest_poll_interval": draw(st.sampled_from([100.0, 5.0, 100.0, 2.0, 0]))}
+    arrivals = []
+    for _ in range(draw(st.integers(1, 2))):
+        ops = [{"parents": [], "segs": [{"cpu": 0.5 / tps, "law": "const", "mem": None, "read": 0.25 * 20.0 / tps}]}]
+        for i in range(draw(st.integers(2, 4))):
+            # most siblings read far more than any limit the policy hands out; a few are small enough to complete
+            read = draw(st.sampled_from([400.0, 400.0, 400.0, 3.0, 30.0]))
+            ops.append({"parents": [0], "segs": [{"cpu": (draw(st.integers(0, 2)) + 0.5) / tps, "law": "const", "mem": None, "read": read}]})
+        arrivals.append([draw(st.integers(0, 2)), {"prio": draw(st.sampled_from([3, 2, 1])), "ops": ops}])
+    arrivals.sort(key=lambda a: a[0])
+    return {"params": params, "arrivals": arrivals, "policy": "sized", "tape": [],
+            "sizes": draw(st.lists(st.sampled_from([2, 4, 6, 8, 10, 14, 20]), min_size=3, max_size=5))}
+
+
 def strategy(tier):
-    return st.one_of(case(tier), case(tier), case(tier), branchy_rest_case(tier))
+    return st.one_of(case(tier), case(tier), case(tier), case(tier), case(tier), case(tier), branchy_rest_case(tier), branchy_rest_case(tier),
+                     swap_rest_case(tier))
 
 
 # ----------------------------------------------------------------------------- external policies (JSON in, JSON out)
@@ -110,6 +136,30 @@ def go_naive(body):
             if found:
                 break
     return {"suspensions": [], "assignments": asg}
+
+
+class SizedPolicy:
+    """every ready assignable operator at once, alone, 1 CPU, memory limit by its position in the pipeline's listing"""
+
+    def __init__(self, sizes):
+        self.sizes = list(sizes) or [4]
+
+    def __call__(self, body):
+        free = {pl["pool_id"]: [pl["avail_cpu"], pl["avail_ram_gb"]] for pl in body["pools"]}
+        asg = []
+        for p in list(body["new_pipelines"]) + list(body["other_pipelines"]):
+            for i, op in enumerate(p["operators"]):
+                if not (op["is_assignable_state"] and op["parents_complete"]):
+                    continue
+                ram = float(self.sizes[i % len(self.sizes)])
+                pool = next((k for k, (c, r) in sorted(free.items()) if c >= 1 and r >= ram + 1), None)
+                if pool is None:
+                    continue
+                free[pool][0] -= 1
+                free[pool][1] -= ram
+                asg.append({"operator_ids": [op["id"]], "cpu": 1, "ram_gb": ram, "pool_id": pool, "priority": p["priority"],
+                            "is_resume": False, "force_run": False})
+        return {"suspensions": [], "assignments": asg}
 
 
 class TapePolicy:
@@ -367,7 +417,7 @@ def run_case(spec):
     params = dict(spec["params"])
     params["scheduler_algo"] = "rest"
     tps = params["ticks_per_second"]
-    policy = go_naive if spec["policy"] == "go_naive" else TapePolicy(spec["tape"], params["multi_operator_containers"], params.get("allow_memory_overcommit", False))
+    policy = go_naive if spec["policy"] == "go_naive" else SizedPolicy(spec.get("sizes")) if spec["policy"] == "sized" else TapePolicy(spec["tape"], params["multi_operator_containers"], params.get("allow_memory_overcommit", False))
     out.label("policy_" + spec["policy"])
     ctx = {"rec": None, "calls": [], "reported": {}, "decisions": {}, "last_tick_field": None, "handler_error": None, "init": 0}
 
@@ -419,6 +469,12 @@ def run_case(spec):
                     prev = rec.ticks[t - 1] if t >= 1 else None
                     eventful = bool(rec.cur.arrivals) or bool(prev is not None and prev.results)
                     ctx["calls"].append((t, eventful))
+                    sig = {p["pipeline_id"]: tuple(o["state"] for o in p["operators"]) for p in exp["new_pipelines"] + exp["other_pipelines"]}
+                    for pid, now in sig.items():
+                        was = ctx.get("sig", {}).get(pid)
+                        if was is not None and was != now and sorted(was) == sorted(now):
+                            out.label("siblings_swapped_states_between_calls")
+                    ctx["sig"] = sig
                     resp = policy(body)
                     opindex = {}
                     for pid, p in rec.pipelines.items():
